@@ -235,6 +235,10 @@ class ScriptedPeer(PeerBase):
             if self.framing == "tcp" or s.type & 0xF == 1:      # SOCK_STREAM: real EOF
                 return self.close_conn(s, d, n)
             return self.send_error(s, errno.ECONNREFUSED, d, n)
+        if name == "nowerr":            # valid answer now, then an OS error on the idle socket
+            keep.append(v)
+            self.send(s, v, 0, n, 1)
+            return self.send_error(s, args[0], args[1], n)
         if name == "reset":
             return self.send_error(s, errno.ECONNRESET, (args[0] if args else 0), n)
         if name == "rxerr":
